@@ -9,6 +9,7 @@ func init() {
 			{Name: "H_C13_probe_k", Tier: "quick", What: "nlist=2, n=2, d=1, everything symbolic incl. k and nprobes (all int): full probe == exact top-k; p<nlist == exact top-k of the p nearest clusters; p+1 probes never worse rank by rank", Covers: []string{"full-probe", "partial-probe"}},
 			{Name: "H_C13_probe_th", Tier: "quick", What: "nlist=2, n=2 concrete vectors in every assignment pattern, threshold and query symbolic, nprobes in {1,2}", Covers: []string{"full-probe", "partial-probe"}},
 			{Name: "H_C13_probe_ops", Tier: "quick", What: "nlist=2, n=3 concrete vectors in every assignment pattern (empty clusters occur), none|Remove|Remove+Flush, id filter, k symbolic, nprobes in {1, 0}", Covers: []string{"full-probe", "partial-probe"}},
+			{Name: "H_C13_reuse", Tier: "quick", What: "nlist=3, 4 concrete vectors, p in {1,2} probes, a symbolic first query in [-16,16] and a second query next to any of the three centroids, l2sq / euclidean: one search object executed for the first query and, re-targeted with WithQuery, for the second — each answer is the exact top-k of ITS OWN p nearest clusters; a two-query batch (max rule) holds exactly the per-query hits with the maximum of their scores", Covers: []string{"second-execute", "batch"}},
 			{Name: "H_C13_untrained", Tier: "quick", What: "nlist 1..4, d 1..2, 3 metrics: a fresh index is untrained; Add / search (default and full probe) before training and Train with too few vectors are errors and leave it untrained; after Train the index is empty and accepts Add", Covers: []string{"ran"}},
 			{Name: "H_C13_ivf_t", Tier: "thorough", What: "nlist=2, n=2: symbolic stored vectors x symbolic k x symbolic nprobes x id filter (no threshold, no removals)", Covers: []string{"full-probe", "partial-probe"}},
 			{Name: "H_C13_ivf_t_th", Tier: "thorough", What: "nlist=2, n=2: symbolic stored vectors x symbolic threshold, nprobes in {1, all}", Covers: []string{"full-probe", "partial-probe"}},
